@@ -29,6 +29,8 @@ structure Share where
   nodes : Nat := 0
   heap : Nat := 0
   shared : Nat := 0
+  visHeap : Nat := 0      -- visible heap nodes (the nodes the public API can hand out)
+  visShared : Nat := 0
   leaves : Nat := 0
   deriving Repr
 
@@ -38,7 +40,11 @@ mutual
     | .mk d ks =>
       let s := { s with nodes := s.nodes + 1, leaves := if ks.isEmpty then s.leaves + 1 else s.leaves }
       let s := if d.addr == 0 then s
-               else { s with heap := s.heap + 1, shared := if old.contains d.addr then s.shared + 1 else s.shared }
+               else
+                 let sh := old.contains d.addr
+                 { s with heap := s.heap + 1, shared := if sh then s.shared + 1 else s.shared
+                          visHeap := if d.visible then s.visHeap + 1 else s.visHeap
+                          visShared := if d.visible && sh then s.visShared + 1 else s.visShared }
       shareKids old ks s
   def shareKids (old : Std.HashSet Nat) (ks : List Tree) (s : Share) : Share :=
     match ks with
@@ -100,12 +106,14 @@ structure Thresholds where
   lexed : Nat
   bytes : Nat
   fresh : Nat
+  freshVis : Nat
   deriving Repr, Inhabited
 
 structure Measured where
   lexedPpm : Nat
   bytesPpm : Nat
-  freshPpm : Nat
+  freshPpm : Nat       -- heap nodes of the new tree that are not nodes of the old tree / heap nodes
+  freshVisPpm : Nat    -- the same over VISIBLE heap nodes only (hidden repeat helpers excluded)
   deriving Repr, Inhabited
 
 def judgeCase (thr : Thresholds) (m : Measured) (incrError scratchError sameSexp : Bool) : Option String :=
@@ -114,6 +122,7 @@ def judgeCase (thr : Thresholds) (m : Measured) (incrError scratchError sameSexp
   else if m.lexedPpm > thr.lexed then some s!"lexed fraction {m.lexedPpm} ppm exceeds threshold {thr.lexed} ppm"
   else if m.bytesPpm > thr.bytes then some s!"fraction of bytes requested from the read callback {m.bytesPpm} ppm exceeds threshold {thr.bytes} ppm"
   else if m.freshPpm > thr.fresh then some s!"fraction of new-tree heap nodes NOT shared with the old tree {m.freshPpm} ppm exceeds threshold {thr.fresh} ppm"
+  else if m.freshVisPpm > thr.freshVis then some s!"fraction of new-tree VISIBLE heap nodes not shared with the old tree {m.freshVisPpm} ppm exceeds threshold {thr.freshVis} ppm"
   else none
 
 /-- "Does not grow with document size": `big ≤ 1.5 × small + 0.5 %`. -/
